@@ -767,6 +767,23 @@ func genEPUB(t *rapid.T) ECase {
 			}
 		}
 	}
+	// members of the same file name in another directory (an older copy of a chapter left in the archive): a part
+	// is the member its resolved path names, never another one that merely has the same file name
+	if rapid.IntRange(0, 2).Draw(t, "sameNameElsewhere") == 0 {
+		for _, sp := range b.Spine {
+			it := b.Items[sp.Item]
+			if it.Role != "" || rapid.IntRange(0, 1).Draw(t, "twinOf") == 0 {
+				continue
+			}
+			zn := b.ZipName(sp.Item)
+			base := zn[strings.LastIndex(zn, "/")+1:]
+			dir := rapid.SampledFrom([]string{"0-old/", "OEBPS/backup/", "zz/"}).Draw(t, "twinDir")
+			if dir+base == zn {
+				continue
+			}
+			b.Decoys = append(b.Decoys, epubw.File{Path: dir + base, Data: epubw.Chapter{Heading: k.next(), Paras: []string{k.next()}}.XHTML(b.Version)})
+		}
+	}
 	// a second rendition: its own package document and chapters below alt/, listed as a later rootfile. The default
 	// rendition is the first package rootfile; nothing of the other rendition is part of the document.
 	if rapid.IntRange(0, 4).Draw(t, "altRendition") == 0 {
